@@ -85,6 +85,13 @@ impl CPUEmulator {
             return ERR_INVALID_SEGMENT_TRANSITION;
         }
 
+        if self.validate_silencer_settings(
+            self.stm_freq_div[d.segment as usize],
+            self.mod_freq_div[self.mod_segment as usize],
+        ) {
+            return ERR_INVALID_SILENCER_SETTING;
+        }
+
         self.stm_segment = d.segment;
 
         self.bram_write(
